@@ -744,6 +744,36 @@ fn extract_actor_ref(repo: &std::path::Path, out: &mut Out) {
         })(),
     );
 
+    // ask_join = ask, then await the returned JoinHandle, mapping only a JoinError
+    out.item(
+        "ask_join_shape",
+        (|| -> R<String> {
+            let f = fn_by_name(&fns, "ask_join").ok_or("fn ask_join not found")?;
+            let sig: Vec<String> = significant_stmts(&f.block).iter().map(|s| strip_ws(&tok(*s))).collect();
+            let ok = sig
+                == vec![
+                    "letjoin_handle=self.ask(msg).await?;".to_string(),
+                    "letresult=join_handle.await.map_err(|join_error|crate::Error::Join{identity:self.identity(),source:join_error,})?;".to_string(),
+                    "Ok(result)".to_string(),
+                ];
+            Ok(format!("def ask_join_is_ask_then_join : Bool := {ok}\n"))
+        })(),
+    );
+    // the async timeout wrappers consist of nothing but the wrapped call
+    out.item(
+        "timeout_wrappers_exact",
+        (|| -> R<String> {
+            let mut oks = vec![];
+            for (fname, inner, label) in [("tell_with_timeout", "tell", "tell"), ("ask_with_timeout", "ask", "ask")] {
+                let f = fn_by_name(&fns, fname).ok_or(format!("fn {fname} not found"))?;
+                let sig: Vec<String> = significant_stmts(&f.block).iter().map(|s| strip_ws(&tok(*s))).collect();
+                let want0 = format!("letresult=tokio::time::timeout(timeout,self.{inner}(msg)).await.map_err(|_|{{crate::dead_letter::record::<M>(self.identity(),crate::dead_letter::DeadLetterReason::Timeout,\"{label}\",);Error::Timeout{{identity:self.identity(),timeout,operation:\"{label}\".to_string(),}}}})?;");
+                oks.push(sig == vec![want0, "result".to_string()]);
+            }
+            Ok(format!("def timeout_wrappers_exact : List Bool := [{}, {}]\n", oks[0], oks[1]))
+        })(),
+    );
+
     // (d) kill / stop result arms
     out.item(
         "kill_stop_arms",
@@ -1073,4 +1103,61 @@ pub fn extract_more(repo: &std::path::Path, out: &mut Out) {
     extract_actor_ref(repo, out);
     extract_forwarders(repo, out);
     extract_lifecycle(repo, out);
+    extract_deadlock_protocol(repo, out);
+}
+
+// ------------------------------------------------------------------ E8 (second half): the ask-side wait-for protocol
+fn extract_deadlock_protocol(repo: &std::path::Path, out: &mut Out) {
+    out.item(
+        "ask_protocol",
+        (|| -> R<String> {
+            let aref = strip_ws(&std::fs::read_to_string(repo.join("src/actor_ref.rs")).map_err(|e| e.to_string())?);
+            let lib = strip_ws(&std::fs::read_to_string(repo.join("src/lib.rs")).map_err(|e| e.to_string())?);
+            let actor = strip_ws(&std::fs::read_to_string(repo.join("src/actor.rs")).map_err(|e| e.to_string())?);
+            // the ask block
+            let i = aref.find("let_guard={").ok_or("ask: `let _guard = {` not found")?;
+            let j = aref[i..].find("let(reply_tx,reply_rx)=oneshot::channel();").map(|x| x + i).ok_or("ask: end of guard block not found")?;
+            let blk = &aref[i..j];
+            let reads_ctx = blk.contains("letcaller=crate::CURRENT_ACTOR.try_with(|id|*id).ok();");
+            let untracked = blk.contains("ifletSome(caller)=caller{") && blk.contains("}else{None}");
+            let one_lock = blk.matches("wait_for_graph().lock()").count() == 1;
+            let check = blk.contains("ifcaller.id==callee.id||crate::has_path(&graph,callee.id,caller.id){");
+            let fmt_then_unlock_then_panic = {
+                let a = blk.find("letcycle=crate::format_cycle_path(&graph,caller,callee);");
+                let b = blk.find("drop(graph);");
+                let c = blk.find("panic!(");
+                matches!((a, b, c), (Some(a), Some(b), Some(c)) if a < b && b < c)
+            };
+            let tokened = blk.contains("lettoken=crate::next_wait_token();graph.insert(caller.id,(callee,token));Some(crate::WaitForGuard(caller.id,token))");
+            let untokened = blk.contains("graph.insert(caller.id,callee);Some(crate::WaitForGuard(caller.id))");
+            let insert_after_check = match (blk.find("panic!("), blk.find("graph.insert(")) {
+                (Some(p), Some(q)) => p < q,
+                _ => false,
+            };
+            // reply sender carries the edge
+            let reply_carries_edge = aref.contains("letreply_tx=crate::ReplySender{tx:reply_tx,edge:_guard.as_ref().map(|g|(g.0,g.1)),};");
+            let reply_send_clears = lib.contains("ifletSome((caller,token))=self.edge{clear_wait_for(caller,token);}self.tx.send(value)");
+            let clear_token_matched = lib.contains("ifletOk(mutgraph)=wait_for_graph().lock(){ifgraph.get(&caller).map(|(_,t)|*t)==Some(token){graph.remove(&caller);}}");
+            let guard_drop_clears_tok = lib.contains("implDropforWaitForGuard{fndrop(&mutself){clear_wait_for(self.0,self.1);}}");
+            let guard_drop_clears_plain = lib.contains("implDropforWaitForGuard{fndrop(&mutself){ifletOk(mutgraph)=wait_for_graph().lock(){graph.remove(&self.0);}}}");
+            let at_reply = tokened && reply_carries_edge && reply_send_clears && clear_token_matched && guard_drop_clears_tok;
+            let at_resume_only = untokened && guard_drop_clears_plain && !reply_send_clears;
+            if !at_reply && !at_resume_only {
+                return Err("edge removal protocol not recognised (neither token-matched removal at reply + guard, nor guard only)".into());
+            }
+            // scopes around the four hooks
+            let scopes = actor.matches("run_with_actor_scope!(actor_id,").count();
+            let on_run_scope = actor.matches("with_actor_scope!(actor_id,actor.on_run(&actor_weak)").count();
+            Ok(format!(
+                "def ask_reads_task_local : Bool := {reads_ctx}\ndef ask_untracked_without_context : Bool := {untracked}\n\
+                 def ask_check_and_insert_under_one_lock : Bool := {}\ndef ask_checks_self_or_path_callee_to_caller : Bool := {check}\n\
+                 def ask_unlocks_before_panic : Bool := {fmt_then_unlock_then_panic}\n\
+                 /-- the reply sender clears the asker's edge (token-matched) before it sends; the asker-side guard covers the rest -/\n\
+                 def edge_removed_at_reply : Bool := {at_reply}\ndef guard_removes_on_drop : Bool := {}\n\
+                 def hook_scopes_awaited : Nat := {scopes}\ndef on_run_scoped : Nat := {on_run_scope}\n",
+                one_lock && insert_after_check,
+                guard_drop_clears_tok || guard_drop_clears_plain
+            ))
+        })(),
+    );
 }
